@@ -1022,11 +1022,7 @@ namespace bluetoe {
         const std::size_t start_index = handle_mapping::first_index_by_handle( starting_handle );
         const bool only_16_bit_uuids = attribute_at( start_index ).uuid != bits( details::gatt_uuids::internal_128bit_uuid );
 
-        std::size_t ending_index = handle_mapping::first_index_by_handle( ending_handle );
-
-        // if the ending handle points not on an existing attribute, the search will end at the next, lower handle
-        if ( ending_index != details::invalid_attribute_index && handle_mapping::handle_by_index( ending_index ) != ending_handle )
-            --ending_index;
+        const std::size_t end_index = end_handle_index( ending_handle );
 
         std::uint8_t*        write_ptr = &output[ 0 ];
         std::uint8_t* const  write_end = write_ptr + out_size;
@@ -1045,7 +1041,7 @@ namespace bluetoe {
 
         }
 
-        write_ptr = collect_handle_uuid_tuples( start_index, ending_index, only_16_bit_uuids, write_ptr, write_end );
+        write_ptr = collect_handle_uuid_tuples( start_index, end_index, only_16_bit_uuids, write_ptr, write_end );
 
         out_size = write_ptr - &output[ 0 ];
     }
@@ -1579,28 +1575,23 @@ namespace bluetoe {
         {
             services_by_group( std::uint16_t starting_handle, std::uint16_t ending_handle, Iterator& iterator, const Filter& filter, bool& found )
                 : starting_index_( details::handle_index_mapping< Server >::first_index_by_handle( starting_handle ) )
-                , ending_index_( details::handle_index_mapping< Server >::first_index_by_handle( ending_handle ) )
+                , ending_handle_( ending_handle )
                 , index_( 0 )
                 , iterator_( iterator )
                 , filter_( filter )
                 , found_( found )
             {
-                // if the ending_handle does not point to a specific handle, the last attribute befor that is ment.
-                if ( ending_index_ != details::invalid_attribute_index && details::handle_index_mapping< Server >::handle_by_index( ending_index_ ) != ending_handle )
-                {
-                    --ending_index_;
-                }
             }
 
             template< typename Service >
             void each()
             {
+                using mapping = details::handle_index_mapping< Server >;
+
                 if ( ( starting_index_ != details::invalid_attribute_index && starting_index_ <= index_ )
-                    && ( index_ <= ending_index_ || ending_index_ == details::invalid_attribute_index ) )
+                    && mapping::handle_by_index( index_ ) <= ending_handle_ )
                 {
                     const details::attribute& attr = Server::attribute_at( index_ );
-
-                    using mapping = details::handle_index_mapping< Server >;
 
                     if ( filter_( index_, attr ) )
                     {
@@ -1615,7 +1606,7 @@ namespace bluetoe {
             }
 
             std::size_t     starting_index_;
-            std::size_t     ending_index_;
+            std::uint16_t   ending_handle_;
             std::size_t     index_;
             Iterator&       iterator_;
             const Filter&   filter_;
@@ -1641,8 +1632,7 @@ namespace bluetoe {
             ? 2 + 2
             : 2 + 16;
 
-        for ( ; ( start <= end || end == details::invalid_attribute_index ) && start < number_of_attributes
-            && static_cast< std::size_t >( out_end - out ) >= size_per_tuple; ++start )
+        for ( ; start < end && static_cast< std::size_t >( out_end - out ) >= size_per_tuple; ++start )
         {
             const details::attribute attr = attribute_at( start );
             const bool is_16_bit_uuids    = attr.uuid != bits( details::gatt_uuids::internal_128bit_uuid );
